@@ -19,6 +19,13 @@ class VariableBoundMaxPropagator(VariableBoundPropagator):
         max_v = self.max()
   
         range_l = self.target.domain.range_l
+        
+        if len(range_l) == 0 or max_v < range_l[0][0]:
+            # The bound would empty the domain. Either the constraints are
+            # unsatisfiable, which the solver reports, or the bound does
+            # not order the values this way: leave the domain alone
+            return False
+        
         i=len(range_l)-1
         
 #        print("Max: range_l=" + str(range_l) + " max_v=" + str(max_v))
